@@ -588,7 +588,10 @@ def dpd_eval_cases(tier_full):
         keeps = [None] + (topology_groups(name) if len(topology_groups(name)) > 1 else [])
         for keep in keeps:
             for ref in (1, 2, 3):
-                opts = OPTS if tier_full else [OPTS[n % len(OPTS)], OPTS[(n + 4) % len(OPTS)]]
+                if tier_full and name.endswith("_hel"):
+                    opts = OPTS if keep is None else [OPTS[(n + k) % len(OPTS)] for k in (0, 2, 4)]
+                else:
+                    opts = [OPTS[n % len(OPTS)], OPTS[(n + 4) % len(OPTS)]]
                 for tag, scalar, stable in opts:
                     cases.append({"kind": "dpd_eval", "opts": tag, "ev_seed": 1000 + n,
                                   "cfg": {"reaction": name, "keep": keep, "align": f"dpd{ref}", "scalar_m0": scalar,
